@@ -24,7 +24,8 @@ CHECKS = {
                 "oracle decode(encode(x)) == x (reflect.DeepEqual; schemas through every exported accessor plus stable "
                 "re-encoding); the RFC error strings are compared exactly in both directions (wire string -> Go error type -> wire string; a string differing only in case is not that error). Schemas include integer bounds beyond +-2^53 and string enums as map keys and values; a quarter of the round trips come right after a structurally corrupted encoding of the same value was decoded (accepted or rejected). Non-trivial = value with >=1 optional member present and >=1 nested set/map, or a schema "
                 "with >=1 base-type constraint; distinct = hash of the structural signature (type, members present, "
-                "shapes of nested values / column type signature).",
+                "shapes of nested values / column type signature)."
+                " Maps nested in rows, conditions, mutations and table updates also take sets of uuids (none, two, three) as values.",
         "assumptions": COMMON_ASSUMPTIONS + [
             "untyped positions use the decoded canonical form: JSON numbers are float64 and a one-element set is its atom "
             "(RFC 7047 notation is ambiguous there by design)",
@@ -109,7 +110,8 @@ CHECKS = {
                 "new row so that X is garbage collected); after every step a full scan for "
                 "duplicate index tuples, and accept/reject + 'constraint violation' must agree with refdb's final-state scan. "
                 "Schema indexes may include optional columns and (in a reference-heavy third of the cases) reference columns, whose values also change by weak-reference pruning and garbage collection: the commit-time check has to see those rows too. Non-trivial = transaction with a transient duplicate that is accepted or a final duplicate that is rejected; "
-                "distinct = hash of (schema kinds, operation sequence).",
+                "distinct = hash of (schema kinds, operation sequence)."
+                " The index composites include: a row is renamed, deleted through a condition on its new value, and its old value is reused by an insert in the same transaction.",
         "assumptions": COMMON_ASSUMPTIONS + [
             "index columns are scalar (min=max=1) columns: the cache uses the value as a Go map key",
             "known finding index-overwrite excluded by construction: transactions in which >=3 rows hold one index tuple at the same "
@@ -157,7 +159,8 @@ CHECKS = {
                 "are untouched, clashing names are rejected. Transactions that insert a referrer of a named row also wait on the new row with an expected row spelling the reference by the same name (== is satisfied at once, != times out). TestC15API: Create() of 2-6 models in one call whose _uuid fields hold a symbolic "
                 "name, a real uuid or nothing, with references (by name or uuid) between them, in drawn order: every model becomes its own row, "
                 "names denote the rows inserted under them, real uuids are kept; names include hex-like, braced, urn: and upper-case spellings of uuids, and the operations the API produces must tag such a string as named-uuid unless it is the canonical 36-character form. TestC15Large: transactions of 257, 300 and 520 named inserts without explicit uuids: every insert gets its own uuid and references by the first and the last name reach those rows. Non-trivial = a name used in a collection, condition or mutation "
-                "position or before its definition; distinct = hash of (schema kinds, operation sequence).",
+                "position or before its definition; distinct = hash of (schema kinds, operation sequence)."
+                " Names are spelt n<k>, Row_N<k> (upper-case letters) or row_<32 hex digits> (exactly as long as a uuid); TestC15API also uses Row_Name<k> and row_<32 hex digits> in the _uuid field of models given to Create.",
         "assumptions": COMMON_ASSUMPTIONS + [
             "a name is only offered for reference columns of the table of its insert (known finding cross-table-uuid); a set never "
             "holds a name together with the explicit uuid bound to it",
@@ -221,7 +224,8 @@ CHECKS = {
                 "RowsByCondition with the values of every index of up to 4 rows - alone, and together with a _uuid condition naming the same or another row - must "
                 "select what a scan (refdb) selects, and must leave the indexes intact for the comparisons that follow; "
                 "values no row holds any more lead nowhere. Between batches one third of the cases issue a checked write the cache has to refuse (Create or Update that would give a second row the values of a schema index of a cached row, the other columns fresh): it must fail and leave Rows(), every index and every lookup as they were. The optional indexed column takes every atomic type. Non-trivial = history with a batch in which an indexed value changes owner; "
-                "distinct = hash of (index configuration, per-batch path/size/hand-over).",
+                "distinct = hash of (index configuration, per-batch path/size/hand-over)."
+                " One case in three has a second table with the same columns and one to three client indexes of its own (the index configuration of one table is nobody else's).",
         "assumptions": COMMON_ASSUMPTIONS + [
             "single-column indexes on set/map columns are not generated (the cache uses the value as a Go map key)",
             "Index() addresses indexes by column names only: map-key client indexes are checked through the lookup half",
@@ -301,7 +305,8 @@ CHECKS = {
                 "gives the last new value and names no column that is back to its original value; nothing at all (table absent from "
                 "GetUpdatedTables) if the row ends as it began or is inserted and deleted; GetModel/GetRow return the last state; a bystander row of the same table receives changes in between and must keep exactly its own net update whatever happens to the first row (also when that one cancels out). Expected "
                 "states come from the reference rules (refdb.ApplyMutation). One case in about eight draws collections of 9-120 elements. While the aggregate holds changes of the row, a second insert of it is sometimes merged in between: it must be refused and leave the aggregate as it was. Non-trivial = sequence of length >=3 or one that restores a "
-                "column; distinct = hash of (type signature, operation/mutator sequence).",
+                "column; distinct = hash of (type signature, operation/mutator sequence)."
+                " TestC11Refs covers 'reference-driven changes merged into it' on whole transactions: histories on reference-heavy schemas (chain-friendly schema one case in five; composites that release a referrer and touch the weak holders in the same transaction) run through the transaction engine; for every row named by a transaction's update the old model must be the row before the transaction, the new model the row after it (reference rules of refdb), and a row that ended as it began is not named; the modify difference is checked by checkUpdate in the same step. Non-trivial there = garbage collection or weak-reference pruning took part in the commit.",
         "assumptions": COMMON_ASSUMPTIONS + ["only mutations the implementation supports are generated (see C03 tolerance classes)"],
         "level_text": "exploration: generated operation sequences on one row with net-update laws checked after every step",
         "level_note": "the merge of reference-driven changes into a transaction is checked by TestC11Refs on whole transactions (old model = row before, new model = row after, unchanged rows not named; the modify difference by checkUpdate in every L1 history)",
@@ -319,7 +324,8 @@ CHECKS = {
                 "arguments are covered by C14. TestC13API does the same through a connected client (server, MonitorAll): List into []T and []*T, "
                 "WhereCache/Where(models)/WhereAny(...).List into both, Get, Cache().Table().Row/Rows; 1-3 mutations of returned models, then every path "
                 "must return the rows the database holds; conditionals are reused for several reads (a later List on the same ConditionalAPI must not hand out memory an earlier one returned). The row RowCache.Update hands back (for an update that changes nothing) is one of the read paths; the hand-written model has its untagged field in the middle. The hand-written family has a client index, and a look-up resolved through it is a read path. TestC13Large: tables of 300, 1027, 2051 and 4100 rows read in full through Rows, RowsByCondition and row by row, every returned model scribbled over: the cache must still hold what was stored. Non-trivial = a mutation through a non-empty slice, map or "
-                "pointer; distinct = hash of (family, read path, write path, mutation kind).",
+                "pointer; distinct = hash of (family, read path, write path, mutation kind)."
+                " The write paths include 'InitialData': the model is handed over as the initial contents of a new cache (NewTableCache).",
         "assumptions": COMMON_ASSUMPTIONS + [
             "RowsShallow is the documented read-only exception",
             "map columns keyed by real/boolean are not generated for JSON-cloned models (known finding clone-nonjson-map-key)",
@@ -343,7 +349,8 @@ CHECKS = {
                 "every table and the reference state, per row add -> update* -> delete, update.old = replayed previous state, update old != new, "
                 "all handlers saw identical sequences; the last handler may scribble over the models it receives without effect on the cache. "
                 "TestC14Partial: a notification of 1-8 new rows plus one row that cannot be applied (insert of a cached row, modification or deletion of an unknown row; update and update2 encodings): however many of the other rows Go map order lets through, replaying the delivered events must reproduce the cache, also after the rows that made it are modified once more. Non-trivial = a row with >=3 changes and the dispatcher lagging >=2 events at some point; distinct = hash of (schema kinds, "
-                "schedule word, handlers).",
+                "schedule word, handlers)."
+                " TestC14HeldHandler: the first callback is held while 8-60 further updates queue behind it, the connection is cut, and the callback returns only after 3-5 times the client's reconnect timeout (60-150 ms); the handler must be told the queued updates once and in order (first old value 0, each old value the previous new value), followed by five updates made after the reconnection (a row inserted through another connection tells when the client is monitoring again).",
         "assumptions": COMMON_ASSUMPTIONS + [
             "generated histories keep fewer events outstanding than the 65536-entry buffer; TestC14Overflow overflows it once on purpose and checks that drops stop when it has free slots again",
             "handlers of one cache share the event's model objects; only isolation from the cache is required (C13)",
@@ -370,7 +377,8 @@ CHECKS = {
                 "(no waiting: the server notifies before it replies), immediately after the issuer's own Transact too; all clients must "
                 "still be connected. TestC01Long: one history long enough to exceed the 65536-entry event buffer of the cache while a registered handler is slow: the cache must keep following the database (dropping events is allowed, dropping updates is not). Between transactions a client that already monitors something sometimes makes a Monitor call that fails (a method the client does not know, a request the server refuses): its established monitors must go on being served." + BIG_NOTE + " evaluations = cases (each with up to ~100 cache/database comparisons). Non-trivial = a monitor established "
                 "strictly inside the history with committed transactions after it; distinct = hash of (schema kinds, monitor "
-                "methods/positions/schedules, history length).",
+                "methods/positions/schedules, history length)."
+                " One case in three draws its schema from the reference-heavy profile (one in five of those is the chain-friendly schema: a root table holding rows of a non-root table that refer to each other, watched by a root table through weak references), and mutate operations carry up to four mutations, so that rows are pruned in several rounds of one commit and a mutation without effect sits between two that have one.",
         "assumptions": COMMON_ASSUMPTIONS + [
             "the peer is libovsdb's own server (no ovsdb-server offline): it never answers monitor_cond_since with found=true and never sends update3",
             "the monitors of one client cover disjoint table sets; monitor conditions (where) are empty",
@@ -439,7 +447,8 @@ CHECKS = {
                 "timeout while other clients commit; TestC16Silent: the connection goes silent (the proxy keeps acknowledging the server's calls) while "
                 "the application keeps calling Transact with deadlines shorter than the inactivity timeout - a second connection must appear within 15 s; "
                 "both end with the convergence oracle. TestC16Large: 66000 + 1200 monitored rows (more than the 65536 entries of the event buffer), two cuts with deletions and insertions meanwhile. Scripts contain transactions the client refuses itself (unknown column: nothing is sent). A scenario that does not finish because goroutines have been waiting for minutes on mutexes inside libovsdb/client is reported as reconnect.wedged. After every convergence the client indexes on T0.marker and T1.name are compared with a scan of the cache. Non-trivial = cut after the 6th message (monitor set-up begun) "
-                "resp. a parked window with foreign commits inside; distinct = (scenario, direction, k, mode) resp. (monitors, k, foreign kinds).",
+                "resp. a parked window with foreign commits inside; distinct = (scenario, direction, k, mode) resp. (monitors, k, foreign kinds)."
+                " Scenarios contain the step 'cancel-failed' (MonitorCancel of the first established monitor; libovsdb's server does not implement it and a cut may hit it: unless the call returns nil the monitor is still one the client has to re-establish), also in the fixed scenario that is cut at every message boundary; inactivity scenarios configure the client with WithInactivityCheck alone or followed by WithReconnect with the same timeout and back-off.",
         "assumptions": COMMON_ASSUMPTIONS + [
             "enumerated scenarios run without the inactivity probe so that the fault-free message sequence is the same in every run up to the cut",
             "the keep-the-cache path of monitor_cond_since (found=true) is unreachable with libovsdb's server, which always answers found=false",
@@ -475,7 +484,8 @@ CHECKS = {
                 "deltas, each contested key has exactly one winner; the caching client's cache equals the database at the end; no race report "
                 "involving libovsdb code. Programs also detach a child from a parent (a child no parent holds is garbage collected), alone or together with a claim of a contested key - when the claim fails nothing of the detachment may remain; some children belong to both parents from the start. In two thirds of the runs a bystander monitors a few columns of every table only. Half of the bystanders close their connection right after registering (the server keeps their monitors). TestC17Aged: the same programs on a server that has committed 66000 row changes before. TestC17Tokens: 2-5 clients race to take 1-4 tokens with transactions that only delete (optionally after a select or a wait, so they look read-only at first) while monitoring peers acknowledge slowly: each token is taken by exactly one transaction, nobody gets an RPC error, every monitor is told of each deletion once. TestC17MonitorWindow pins, with the server-side verif hook, a monitor set-up between 'monitors "
                 "notified' and 'committed'. Non-trivial = run in which transactions of different clients overlapped in time at least "
-                "twice (measured by invocation/response timestamps); distinct = the observed order pi.",
+                "twice (measured by invocation/response timestamps); distinct = the observed order pi."
+                " Programs also contain 'retire+claim' (delete a scratch row and insert a contested key: when the claim fails the row is still there for everybody) and 'incr-scratch' (increment of a scratch row; count 0 once it is retired); TestC17Aged builds the database model of server and clients with client indexes over the columns of the schema indexes (Item.key, Counter.name) and one more (Item.owner).",
         "assumptions": COMMON_ASSUMPTIONS + [
             "schedules are whatever the Go scheduler produces on this machine plus the one pinned window; a rarer interleaving can be missed",
             "race reports whose two racing accesses are both inside third-party modules (the JSON-RPC library writes responses of "
@@ -542,7 +552,8 @@ CHECKS = {
                 "DeepEqual on pairs, false after any single-field change, argument untouched; plus, per field, size-preserving and zero-valued variants - "
                 "a map key replaced by another holding the same or the zero value, one value zeroed, one more zero-valued key, a slice element zeroed / "
                 "dropped / a zero element appended, a pointee zeroed or the pointer cleared - on which Equal must agree with DeepEqual in both directions). Non-trivial = schema with >=1 enum and >=1 "
-                "collection/optional column (in-process) / every compiled package; distinct = hash of (column type signature, options).",
+                "collection/optional column (in-process) / every compiled package; distinct = hash of (column type signature, options)."
+                " One case in four also writes the files with Generate into a directory that holds the output of an earlier run with other options (extended and/or enum types flipped), twice: each file must be byte-identical to what a fresh run renders.",
         "assumptions": COMMON_ASSUMPTIONS + [
             "two enum strings that collapse to one Go identifier are not generated together",
             "packages generated without -extended clone through JSON: tables with real/boolean map keys are skipped for the clone laws there (known finding clone-nonjson-map-key)",
